@@ -63,7 +63,7 @@ func captureReinitHashes(w *world.World) map[string][]byte {
 }
 
 func checkC20(c *Ctx) {
-	c.Rule = "original ceremonies for (n,t), n<=4, under random delivery (some with an interleaved second round, signing and junk on the board) are reinitialised on fresh nodes with fresh communication keys and fresh machines from the same mnemonics through the real procedure (GenerateReDKGMessage, optionally stripped to the v0.1.4 shape + GetAdaptedReDKG, ReInitDKG, reinit operation through every machine, result back); plus the recorded v0.1.4 log of the repository with its mnemonics. Oracle: every node signing-idle with the original participants, threshold and public polynomial; every machine's share equals the original; a batch signed afterwards verifies (prysm) under the original group key; the confirmation hash is identical on all nodes and changes under every single-field edit of the reinit file. Half of the reinitialisations restart the restored machines before the reinit operation, a third enter set_seed a second time on them. distinct = distinct (scenario, n, t) reinitialisations + distinct edited fields"
+	c.Rule = "original ceremonies for (n,t), n<=4, under random delivery (some with an interleaved second round, signing and junk on the board) are reinitialised on fresh nodes with fresh communication keys and fresh machines from the same mnemonics through the real procedure (GenerateReDKGMessage, optionally stripped to the v0.1.4 shape + GetAdaptedReDKG, ReInitDKG, reinit operation through every machine, result back); plus the recorded v0.1.4 log of the repository with its mnemonics. Oracle: every node signing-idle with the original participants, threshold and public polynomial; every machine's share equals the original; a batch signed afterwards verifies (prysm) under the original group key; the confirmation hash is identical on all nodes and changes under every single-field edit of the reinit file. Half of the reinitialisations restart the restored machines before the reinit operation, a third enter set_seed a second time on them. Two fifths: one operator finishes his reinit and proposes a batch before the others return their reinit results. distinct = distinct (scenario, n, t) reinitialisations + distinct edited fields"
 	c.Assumptions = []string{"the dump contains the target round's complete key generation before the first signing proposal (the arrangement the tooling supports)", "the v0.1.4 log is judged against the group key announced in the log itself"}
 	// machines log their operations (so that a restart + replay after the reinitialisation is possible)
 	world.UseOpLog = true
@@ -72,6 +72,8 @@ func checkC20(c *Ctx) {
 	defer func() { RestartRestoredMachines = nil }()
 	RepeatSetSeed = func(commSeed uint64) bool { return commSeed%3 == 1 }
 	defer func() { RepeatSetSeed = nil }()
+	LateReinitResults = func(commSeed uint64) bool { return commSeed%5 < 2 }
+	defer func() { LateReinitResults = nil }()
 	type job struct {
 		n, t  int
 		shape string // plain | adapted014 | interleaved | later-proposal | second-ceremony
@@ -193,6 +195,14 @@ func runC20(c *Ctx, n, t int, shape string, seed uint64) {
 	if ce.MachinesRestartedFirst {
 		wit["restored_machines_restarted_before_the_reinit_operation"] = true
 		c.Add("reinitialisations_on_machines_restarted_after_restore", 1)
+	}
+	if ce.EarlyBatch {
+		wit["batch_proposed_before_the_other_operators_returned_their_reinit_results"] = true
+		c.Add("reinitialisations_with_an_early_batch", 1)
+		if !ce.AllIn(StIdle) {
+			c.Violate("C20/not-signing-ready-after-reinit", fmt.Sprintf("one operator finished his reinit and proposed a batch before the others returned their reinit results; at quiescence the nodes are in %v", ce.States()), wit)
+			return
+		}
 	}
 	if ce.SeedSetTwice {
 		wit["mnemonic_entered_twice_on_the_restored_machines"] = true
